@@ -217,3 +217,35 @@ Proof.
   { unfold sec_x_right_as_written, o2. rops. fold root_c tip_le tip_te rx. fold tx. field. exact Hb. }
   split; [exact E|]. intros Hne. rewrite E. intro F. apply Hne. lra.
 Qed.
+
+(* ---------------- the repaired asymmetric branch: sections right of the root join as well ---------------- *)
+Lemma sec_x_right_at_root_gen nx (root : @Edge R) (s : @Sec R) i : sec_x_right nx root s i (e_y root) = linspace (e_le root) (e_te root) nx i.
+Proof. unfold sec_x_right. rops. unfold Rdiv. ring. Qed.
+Section RightSections.
+  Variables (nx : nat) (root : @Edge R) (s : @Sec R).
+  Hypothesis Hnx : (2 <= nx)%nat.
+  Hypothesis Hb : s_span s <> 0.
+  Let tip := sec_tip_right nx root s.
+  Lemma sec_x_right_at_tip i : (i < nx)%nat ->
+    sec_x_right nx root s i (e_y root + s_span s) = if Reqb (e_le tip) (e_te tip) then e_le tip else linspace (e_le tip) (e_te tip) nx i.
+  Proof. intros Hi. unfold sec_x_right. fold tip. rops. destruct (Reqb (e_le tip) (e_te tip)); field; exact Hb. Qed.
+  Hypothesis Hchord : e_te tip <= e_le tip.
+  Lemma next_edge_right_is_tip :
+    e_le (next_edge_right nx root s) = e_le tip /\ e_te (next_edge_right nx root s) = e_te tip /\ e_y (next_edge_right nx root s) = e_y tip.
+  Proof.
+    unfold next_edge_right. cbn [e_le e_te e_y]. rops. rewrite !sec_x_right_at_tip by lia.
+    destruct (Reqb (e_le tip) (e_te tip)) eqn:E.
+    - apply Reqb_true in E. rewrite E. replace (e_te tip - e_te tip) with 0 by ring. rewrite Rabs_R0.
+      repeat split; try ring; try (unfold tip, sec_tip_right; cbn [e_y]; rops; reflexivity).
+    - rewrite linspace_first, linspace_last by lia. rewrite Rabs_right by lra.
+      repeat split; try ring; try (unfold tip, sec_tip_right; cbn [e_y]; rops; reflexivity).
+  Qed.
+  Lemma sections_join_right (s' : @Sec R) i : (i < nx)%nat ->
+    sec_x_right nx (next_edge_right nx root s) s' i (e_y (next_edge_right nx root s)) = sec_x_right nx root s i (e_y root + s_span s).
+  Proof.
+    intros Hi. rewrite sec_x_right_at_root_gen, sec_x_right_at_tip by exact Hi.
+    destruct next_edge_right_is_tip as [E1 [E2 _]]. rewrite E1, E2.
+    destruct (Reqb (e_le tip) (e_te tip)) eqn:E; [|reflexivity].
+    apply Reqb_true in E. rewrite E. unfold linspace. rops. destruct (S i =? nx)%nat; [reflexivity|]. unfold Rdiv. ring.
+  Qed.
+End RightSections.
